@@ -395,7 +395,9 @@ class _Fin:
             nfl = content[3] if len(content) > 3 else (False, 0, False)
             named = []
             if nb is not None:
-                named.append(self.newdef("named", "", nfl, nb, None, "{", "}", outer_a=scope["a"]))
+                nd = self.newdef("named", "", nfl, nb, None, "{", "}", outer_a=scope["a"])
+                nd["body"][0] = ["text", "named%d{" % idx]  # which call's def this is must be visible
+                named.append(nd)
             body = [["text", "%s%d<" % (self.txt, idx)]]
             if ba >= 1:
                 body.append(["expr", "x"])
